@@ -56,7 +56,7 @@ def compare(a_lines, b_lines, views=('obs', 'shape', 'memo', 'ident', 'fresh'), 
             views = tuple(v for v in views if v != 'memo')
         if ao is None or bo is None:
             x = ((ao or {}).get('R', ['<missing>'])[0] if ao else '<missing>', (bo or {}).get('R', ['<missing>'])[0] if bo else '<missing>')
-            if relevant is None or relevant('obs', n, x[0], x[1]):
+            if relevant is None or relevant('obs', n, x[0], x[1], last_equal):
                 diffs.setdefault('obs', (n,) + x)
             else:
                 diffs.setdefault('drift:obs', (n,) + x)
@@ -76,7 +76,7 @@ def compare(a_lines, b_lines, views=('obs', 'shape', 'memo', 'ident', 'fresh'), 
                     last_equal[(tag, reg)] = (x == y)
                     if x == y or not was_equal or view in diffs:
                         continue
-                    if relevant is None or relevant(view, n, x, y):
+                    if relevant is None or relevant(view, n, x, y, last_equal):
                         diffs[view] = (n, x, y)
                     else:
                         diffs.setdefault('drift:' + view, (n, x, y))
@@ -90,7 +90,7 @@ def compare(a_lines, b_lines, views=('obs', 'shape', 'memo', 'ident', 'fresh'), 
                 y = bl[k] if k < len(bl) else '<missing>'
                 if x == y:
                     continue
-                if relevant is None or relevant(view, n, x, y):
+                if relevant is None or relevant(view, n, x, y, last_equal):
                     diffs[view] = (n, x, y)
                     break
                 diffs.setdefault('drift:' + view, (n, x, y))
